@@ -22,6 +22,7 @@ mod c11;
 mod c07;
 mod c13;
 mod c09;
+mod c18;
 
 use std::path::PathBuf;
 
@@ -92,6 +93,7 @@ fn main() {
         "c07" => c07::run(&args),
         "c13" => c13::run(&args),
         "c09" => c09::run(&args),
+        "c18" => c18::run(&args),
         "parse" => c07::parse_command(&args.extra[0]),
         "c06" => c06::run(&args),
         "c16" => c16::run(&args),
